@@ -19,7 +19,7 @@ for d in sorted(glob.glob('/verif/seeded/M*'), key=lambda d: int(re.match(r'M(\d
     elif '(first caught by a single' in needs or '(first caught only' in needs: first="caught by luck"
     if not m['detected_by_checks']: first="not flagged on purpose"
     elif "C15's clause" in needs: first="**missed** (by C10 and C15)"
-    short=re.split(r' \(first |: outside C06|\. Auditd\.Read returns on the first sink error \(C15 checks that at every write position, M96|\. Observable only with| Auditd\.Read returns on| Initially|\. Not visible|\. Invisible|\. Caught thanks|\. This is C15', needs)[0][:260]
+    short=re.split(r' \(first |\. With that name the response|\. Auditd\.Read returns on the first sink error \(C15: the failing|: outside C06|\. Auditd\.Read returns on the first sink error \(C15 checks that at every write position, M96|\. Observable only with| Auditd\.Read returns on| Initially|\. Not visible|\. Invisible|\. Caught thanks|\. This is C15', needs)[0][:260]
     rows.append(f"| {n} | {m['breaks_property']} | {short} | {first} | {', '.join(m['detected_by_checks'])} |")
 p='/verif/DESIGN.md'
 s=open(p).read()
